@@ -31,8 +31,16 @@ class ToolFailure(Exception):
     pass
 
 
+# fields of a trace record that are results / observations, not inputs of the call
+RESULT_FIELDS = {"n", "k", "res", "out", "err", "msgs", "hon", "rval", "ok", "status", "x", "y", "pi", "rc", "slack", "objval", "hook", "hook_over", "bout", "bin",
+                 "rv_status", "rv_objval", "rv_x", "rv_pi", "rv_rc", "rv_slack", "rv_gs", "gs", "rv_nx", "nx", "rv_nrc", "nrc", "rv_npi", "npi", "rv_nsl", "nsl", "rv_ba", "cstat", "rstat",
+                 "result", "dobjval", "leak", "sites", "idx", "v", "used", "rows2", "cols2", "lines", "exit", "exit2", "status2", "val2", "vars", "errors", "kinds",
+                 "rv_order", "order", "binv", "tab", "nsing", "srows", "scols", "etas", "etas2", "refact", "etamax"}
+
+
 class Ctx:
     def __init__(self, prop, tier, seed):
+        self.distinct = {}    # call kind -> set of digests of distinct (input history, inputs) cases
         self.prop, self.tier, self.seed = prop, tier, seed
         self.quick = tier == "quick"
         self.dir = os.path.join(OUT, prop)
@@ -165,10 +173,20 @@ class Ctx:
             for k, v in summ["cnt"].items():
                 self.cnt[k] = self.cnt.get(k, 0) + v
             sid_at, cur = [], None
+            hd = {}          # handle -> rolling digest of the INPUTS of all calls on it in this scenario (scenario names do not enter)
             for e in evs:
                 if e["call"] == "scenario":
                     cur = e["id"]
+                    hd = {}
                 sid_at.append(cur)
+                # distinct cases: a case is (history of call inputs on the handle so far, this call's inputs); identical histories in
+                # differently named scenarios count once
+                if e["call"] not in ("scenario", "handler", "CRASH", "memcheck"):
+                    hk = e.get("h") or e.get("b") or "-"
+                    inp = {k: v for k, v in e.items() if k not in RESULT_FIELDS}
+                    dg = hashlib.sha1((hd.get(hk, "") + json.dumps(inp, sort_keys=True, default=str)).encode()).hexdigest()
+                    hd[hk] = dg
+                    self.distinct.setdefault(e["call"], set()).add(dg)
             for v in verdicts:
                 sid = sid_at[v["n"] - 1] if 0 < v["n"] <= len(sid_at) else None
                 v["scenario"] = sid
@@ -275,6 +293,7 @@ def finish(ctx, level, rule, extra_cov=None, assumptions=None):
                rule=rule, samples=ctx.samples[:3] or [{"note": "no scenario executed"}],
                model_checking=ctx.mc, counters=ctx.cnt, crashes=ctx.crashes, inconclusive_witnesses=ctx.inconclusive,
                known_findings=[kid for kid in kn], notes=ctx.notes,
+               distinct_cases_by_call={k: len(v) for k, v in sorted(ctx.distinct.items())},
                spec_drift=sorted({"%s: %s" % (v["call"], v["why"][:160]) for v in ctx.verdicts if "SPEC-DRIFT" in v["props"]})[:20],
                spec_drift_count=sum(1 for v in ctx.verdicts if "SPEC-DRIFT" in v["props"]),
                harness_verdicts=sum(1 for v in ctx.verdicts if "HARNESS" in v["props"]),
